@@ -14,6 +14,19 @@ def main (args : List String) : IO UInt32 := do
   | ["model"] =>
     modelLoop (← IO.getStdin) (← IO.getStdout) {}
     return 0
+  | ["judge", opsFile, obsFile] =>
+    let ops ← IO.FS.lines opsFile
+    let obs ← IO.FS.lines obsFile
+    let mut j : JSt := {}
+    for i in [0:ops.size] do
+      j := judgeLine j (i + 1) ops[i]! (obs.getD i "")
+    j := j.closeHist ops.size
+    let out ← IO.getStdout
+    for h in j.hists do out.putStrLn h
+    for r in j.rejects do
+      out.putStrLn s!"REJECT {r.prop} line={r.line} {r.msg}"
+    out.putStrLn ("STATS " ++ j.stats.json)
+    return 0
   | ["gen", profile, seed, count, len] =>
     let lines := genProfile profile seed.toNat! count.toNat! len.toNat!
     let out ← IO.getStdout
